@@ -185,11 +185,14 @@ fn deviation(j: Option<&J>, clause: &str, detail: &str) -> Option<&'static str> 
     let non_object_field = any(j, &|o| matches!(o.get("type").and_then(|t| t.as_str()), Some("record" | "error")) && o.get("fields").and_then(|f| f.as_array()).is_some_and(|a| a.iter().any(|x| !x.is_object())));
     let explicit_null_ns = any(j, &|o| o.get("namespace") == Some(&json!("")) || o.get("name").and_then(|n| n.as_str()).is_some_and(|n| n.starts_with('.')));
     let uuid_bytes_default = any(j, &|o| {
+        // a field default whose field type is, or contains (record field, union branch, items), such a type
         o.contains_key("default")
             && o.get("type").is_some_and(|t| {
-                let lt = t.get("logicalType").and_then(|l| l.as_str());
-                let base = t.get("type").and_then(|l| l.as_str());
-                matches!((lt, base), (Some("uuid"), Some("bytes" | "fixed")) | (Some("duration"), Some("fixed")))
+                any(t, &|t| {
+                    let lt = t.get("logicalType").and_then(|l| l.as_str());
+                    let base = t.get("type").and_then(|l| l.as_str());
+                    matches!((lt, base), (Some("uuid"), Some("bytes" | "fixed")) | (Some("duration"), Some("fixed")))
+                })
             })
     });
     let defined_twice = matches!(wellformed(j), Wf::No(r) if r.contains("is defined twice"));
@@ -283,8 +286,8 @@ pub fn run(tier: Tier, replay: Option<&J>) -> i32 {
         return finish(tier, st, start, json!({}), false);
     }
     let depth = match tier {
-        Tier::Quick => 2,
-        Tier::Thorough => 3,
+        Tier::Quick => 3,
+        Tier::Thorough => 4,
     };
     // (a) generated well-formed universe: bases + every decoration
     let bases = base_texts(depth);
@@ -328,9 +331,6 @@ pub fn run(tier: Tier, replay: Option<&J>) -> i32 {
     seeds.push(json!({"type":"record","name":"Al","fields":[{"name":"x","type":"int"},{"name":"y","type":"int","aliases":["x"]},{"name":"z","type":{"type":"fixed","name":"Fz","size":1,"aliases":["Al"]}}]}));
     let mut texts_b: Vec<(String, String)> = vec![];
     for (si, s) in seeds.iter().enumerate() {
-        if tier == Tier::Quick && si % 2 == 1 && si > 24 {
-            continue;
-        }
         for (what, t) in mutations(s) {
             texts_b.push((format!("mutation of seed {si}: {what}"), t));
         }
@@ -344,7 +344,7 @@ pub fn run(tier: Tier, replay: Option<&J>) -> i32 {
     texts_b.push(("nested-redefinition".into(), r#"{"type":"record","name":"A","fields":[{"name":"f","type":{"type":"record","name":"A","fields":[]}}]}"#.into()));
     texts_b.push(("enum-redefines-record".into(), r#"{"type":"record","name":"A","fields":[{"name":"f","type":{"type":"enum","name":"A","symbols":["X"]}}]}"#.into()));
     // (c) all short strings
-    let shorts = short_strings(if tier == Tier::Quick { 4 } else { 5 });
+    let shorts = short_strings(if tier == Tier::Quick { 5 } else { 6 });
     let all: Vec<(String, String)> = texts_a.into_iter().chain(texts_b).chain(shorts.into_iter().map(|s| ("short-string".to_string(), s))).collect();
     let st = all
         .par_iter()
